@@ -157,7 +157,7 @@ int ilu_sQuerySpace(SuperMatrix *L, SuperMatrix *U, mem_usage_t *mem_usage)
     Ustore = U->Store;
     n = L->ncol;
     iword = sizeof(int);
-    dword = sizeof(double);
+    dword = sizeof(float);
 
     /* For LU factors */
     mem_usage->for_lu = (float)( (4.0f * n + 3.0f) * iword +
